@@ -87,6 +87,37 @@ def check(ctx: Ctx) -> None:
     ctx.rule('C16.R2', 'one decision procedure: the rule deciders reachable from explain / discover are the ones reachable from up', floor=2)
     ctx.rule('C16.R4', 'explain_description applies the transforms to the very transaction it then matches (as normalize_merchant does)', floor=2)
     ctx.rule('C16.R3', 'the Unknown contract: discover filters on the literal normalize_merchant returns for unmatched transactions', floor=2)
+    # the three commands look at the same rules because one place decides which rules file a budget has: load_config.  A command (or a helper only
+    # one of them calls) that re-decides it sees rules the others do not.
+    writers = []
+    for f_ in proj.all_funcs():
+        if f_.short.startswith('config_loader.'):
+            continue
+        for n_ in ast.walk(f_.node):
+            if isinstance(n_, ast.Assign):
+                for t in n_.targets:
+                    for x in ([t] if not isinstance(t, ast.Tuple) else t.elts):
+                        if isinstance(x, ast.Subscript) and isinstance(x.slice, ast.Constant) and x.slice.value in ('_merchants_file', '_merchants_format') \
+                                and isinstance(x.value, ast.Name) and x.value.id == 'config':
+                            writers.append((f_, n_, x.slice.value))
+    for f_, n_, k_ in writers:
+        ctx.fail('C16.R1', f_, f'rules-discovery:{k_}', f'{src(n_)[:60]!r}: {f_.short} decides the rules file by itself; `tally up` goes through it and `explain` / `discover` do not '
+                 f'(or the other way round), so they report on rules the run does not apply', n_)
+    if not writers:
+        ctx.ok('C16.R1', proj.func('config_loader.load_config'), "config['_merchants_file'] is decided by load_config only", construct='rules-discovery:single')
+    # what explain is asked about is what it explains: the description and the amount typed on the command line reach explain_description unchanged
+    ex = proj.func(COMMANDS['explain'])
+    efl = get_flow(proj, ex)
+    ed_ = proj.func('merchant_utils.explain_description')
+    for c in efl.calls('explain_description'):
+        a_ = arg_of(c, ed_, 'amount')
+        if a_ is None:
+            continue
+        ops = {o for _l, os_ in efl.leaf_paths(a_, c) for o in os_}
+        changed = sorted(o for o in ops if o in ('call:abs', 'op:neg', 'call:round', 'call:int', 'op:*', 'op:-', 'op:+', 'op:/'))
+        from_args = any(l.startswith('param:args') or 'attr:args.amount' in os_ or "const:'amount'" == l for l, os_ in efl.leaf_paths(a_, c))
+        ctx.check(from_args and not changed, 'C16.R4', ex, 'explain-amount-as-given', 'the --amount given to explain is the amount matched',
+                  f'explain_description(amount={src(a_)}) went through {changed}: a rule with `amount < 0` (refunds, deposits) is decided differently by `tally explain` than by `tally up`', c)
     fs = {k: proj.func(v) for k, v in COMMANDS.items()}
     feats = {k: _features(ctx, f) for k, f in fs.items()}
     ref = feats['up']
